@@ -30,6 +30,9 @@ def harnesses(tier):
             scenario_harness("nested-forever", Profile(
                 templates=("N12",), forever_sched="free", lat="free", sd="free", perm="id", crit_job=False,
                 edges="none"), o, required_notes=("c11_nested_cancelled",)),
+            scenario_harness("flat-verbose-outcomes", Profile(
+                templates=("F3",), raises="free", crit_job="free", verbose=True, perm="id", top="free",
+                edges="none"), o + [O.c04_verdict]),
         ]
     return [
         scenario_harness("flat-all-exits", Profile(
